@@ -92,6 +92,25 @@ Corollary tracker_prefix : forall T fuel runs p,
   exists rest, tf p (tlog (runI T fuel runs)) ++ rest = [TReject; THandle].
 Proof. exact Proofs3.tracker_prefix. Qed.
 
+(* 1b. no re-entrant drain (f7b1efa).  A native reaction handler may call an outermost entry point of
+       the Runtime from inside a job (acts AResN / ARejN); its exit path reaches leave() again.  With the
+       [draining] flag that nested leave() is the identity, and [promise_refines] above — stated over the
+       language WITH such handlers — says the jobs it queued run in plain FIFO order after the rest of
+       the current batch.  The code before f7b1efa ([runI_old]: the nested leave() drains) did not
+       refine S: *)
+Theorem nested_leave_returns_at_once : forall drain s, leave_nested true drain s = s.
+Proof. reflexivity. Qed.
+
+Definition ex_native : list (list op) :=
+  [ [ONew; ONew; OThen 0 (Some (mkScript 1 [AResN 1 (VInt 5)] RetArg)) None;
+     OThen 0 (Some (mkScript 2 [] RetArg)) None; OThen 1 (Some (mkScript 3 [] RetArg)) None];
+    [ORes 0 (VInt 1)] ].
+Theorem old_reentrant_drain_breaks_fifo :
+  log (runI_old [] 100 ex_native) <> log (runS [] 100 ex_native) /\
+  log (runI [] 100 ex_native) = [(1, VInt 1); (2, VInt 1); (3, VInt 5)] /\
+  log (runI_old [] 100 ex_native) = [(1, VInt 1); (3, VInt 5); (2, VInt 1)].
+Proof. vm_compute. repeat split; discriminate. Qed.
+
 (* 7. fuel is only a bound: a history that did not exhaust its fuel is unchanged by any larger fuel.
       (The correspondence check requires exhausted = false, so what it compares with goja is the
       fuel-free meaning of the program.  Termination of every stratified program is NOT proved.) *)
@@ -161,3 +180,5 @@ Print Assumptions tracker_language.
 Print Assumptions tracker_prefix.
 Print Assumptions reaction_record_jobbed_once.
 Print Assumptions fuel_irrelevant.
+Print Assumptions nested_leave_returns_at_once.
+Print Assumptions old_reentrant_drain_breaks_fifo.
